@@ -139,7 +139,8 @@ func (p *Plan) FaultFree() bool {
 			return false
 		}
 		for _, h := range in.Health {
-			if h != 0 {
+			// 0 = healthy at once, 2 = healthy when the check's 100ms context expires: both are healthy answers
+			if h != 0 && h != 2 {
 				return false
 			}
 		}
